@@ -155,7 +155,7 @@ class C15(Check):
                 continue
             if out == "solution":
                 f = self.evaluate_event(plan, result, ev)
-                v.unspecified += f.unspecified
+                v.absorb_unspecified(f)
                 v.rules_checked += f.checked
                 for it in f.items:
                     if it["prop"] in VALIDITY_PROPS:
